@@ -213,6 +213,49 @@ func (w *cluWorld) runSeqOp(ctx context.Context, op cluOp) {
 			}
 		}
 	}
+	// ---- C32 at the cluster level: nodes whose bindings this operation changed ----
+	if w.prop == "C32" {
+		switch op.Kind {
+		case "set_node", "node_resource", "add_node":
+			// capacity may change without a re-map: the node is out of scope until the next one
+			if op.Kind == "add_node" {
+				w.remapDirty[op.NewName] = true
+			} else {
+				w.remapDirty[w.nodeName(op.Node)] = true
+			}
+		case "create", "remove", "dissociate", "realloc", "replace":
+			touched := map[string]bool{}
+			for _, id := range out.okIDs {
+				if wl := post.Workloads[id]; wl != nil {
+					touched[wl.Nodename] = true
+				}
+				if wl := pre.Workloads[id]; wl != nil {
+					touched[wl.Nodename] = true
+				}
+			}
+			// which calls did the injected failure hit? only a failed engine update of one
+			// workload is a failure the re-map is expected to work around
+			allowed, other := 0, false
+			for _, l := range w.errLabels {
+				if strings.HasPrefix(l, "engine UpdateResource ") {
+					allowed++
+				} else {
+					other = true
+				}
+			}
+			if !other {
+				for _, n := range sortedKeys(touched) {
+					delete(w.remapDirty, n)
+				}
+				w.checkRemap(post, touched, allowed, op.Kind)
+			} else {
+				for _, n := range sortedKeys(touched) {
+					w.remapDirty[n] = true // the re-map itself may have been refused
+				}
+			}
+		}
+		w.errLabels = nil
+	}
 	// allocations never push usage above capacity
 	if !out.failed && (op.Kind == "create" || op.Kind == "realloc" || op.Kind == "replace" || op.Kind == "lambda") {
 		for _, n := range sortedKeys(post.Resource) {
@@ -466,7 +509,18 @@ func (w *cluWorld) execOp(ctx context.Context, op cluOp, plan map[string]int, re
 			out.skipped = true
 			return
 		}
-		ch, err := cal.ControlWorkload(ctx, []string{id}, op.Ctl, true)
+		ids := []string{id}
+		if cands := w.candidates(op); len(op.Slots) > 0 && len(cands) > 1 {
+			// several workloads in one call (each handled by its own goroutine)
+			seen := map[string]bool{id: true}
+			for _, sl := range op.Slots {
+				if c := cands[sl%len(cands)]; !seen[c] {
+					seen[c] = true
+					ids = append(ids, c)
+				}
+			}
+		}
+		ch, err := cal.ControlWorkload(ctx, ids, op.Ctl, true)
 		if err != nil {
 			out.failed = true
 			return
@@ -474,14 +528,14 @@ func (w *cluWorld) execOp(ctx context.Context, op cluOp, plan map[string]int, re
 		for m := range ch {
 			if m.Error == nil {
 				if op.Ctl == "stop" {
-					w.stoppedByOp[id] = true
+					w.stoppedByOp[m.WorkloadID] = true
 				} else {
-					delete(w.stoppedByOp, id)
+					delete(w.stoppedByOp, m.WorkloadID)
 				}
 			} else {
 				out.failed = true
 				// a failed stop/restart may have stopped the container: that is the op's own (reported) effect on run state
-				w.stoppedByOp[id] = true
+				w.stoppedByOp[m.WorkloadID] = true
 			}
 		}
 	case "node_resource":
@@ -571,11 +625,13 @@ func (w *cluWorld) execOp(ctx context.Context, op cluOp, plan map[string]int, re
 				w.viol("C21", "node-acted-on-wrong-number-of-times", "rm_image", fmt.Sprintf("filter %+v (expected nodes %v): node %s was acted on %d times, expected %d", nf, sortedKeys(ref), n, d, want))
 			}
 		}
-	case "rpc_pods", "rpc_node", "rpc_status", "rpc_send":
+	case "rpc_pods", "rpc_node", "rpc_status", "rpc_send", "rpc_list":
 		// the same calls through the RPC layer (task counter, converters)
 		vib := w.vibranium()
 		var err error
 		switch op.Kind {
+		case "rpc_list":
+			err = vib.ListWorkloads(&pb.ListWorkloadsOptions{Appname: op.App}, &fakeListStream{ctx: ctx})
 		case "rpc_pods":
 			_, err = vib.ListPods(ctx, &pb.Empty{})
 		case "rpc_node":
